@@ -146,7 +146,7 @@ CHECKS = {
  "C14": ("hypothesis+nvserve",
          "differential testing against a reference model: seeded enumeration of opcode x state single steps + Hypothesis-generated -run programs vs ref_msp430 (written from SLAU144)",
          "Generated-input search against a reference model: (a) first opcode words of the 16-bit core (quick: ~120k seeded "
-         "field-product samples, thorough: all first words 0x1000..0xffff x 3 states) with boundary-valued registers, "
+         "field-product samples, thorough: all first words 0x1000..0xffff x 12 states) with boundary-valued registers, "
          "extension words, SR bits and memory operands are single-stepped on a fresh SimulateMsp430 in the sanitized "
          "harness (forked batches, so a crash is attributed to its case); r0-r15, all SR bits and every changed memory "
          "byte are compared with pyprops/ref_msp430.py; (b) Hypothesis-generated straight-line/loop/call/conditional "
